@@ -3,7 +3,8 @@ import fcntl, hashlib, json, os, random, re, subprocess, sys, time, concurrent.f
 
 VERIF = os.path.dirname(os.path.dirname(os.path.abspath(__file__)))
 LEAN = os.path.join(VERIF, "lean")
-HARNESS = os.path.join(VERIF, "harness")
+HARNESS = os.environ.get("VERIF_HARNESS", os.path.join(VERIF, "harness"))   # scratch copy when testing a seeded change
+OUT = os.environ.get("VERIF_OUT", VERIF)          # where evidence/ and replay/ go
 def oracle_exe(comp): return os.path.join(LEAN, ".lake", "build", "bin", "oracle_" + comp)
 def drive_exe(comp): return os.path.join(HARNESS, "bin", "drive_" + comp)
 EXTRACT = os.path.join(HARNESS, "bin", "extract")
@@ -138,17 +139,32 @@ def strip_lean_comments(s):
     s = re.sub(r"/-.*?-/", "", s, flags=re.S)
     return re.sub(r"--.*", "", s)
 
-def grep_forbidden():
-    hits = []
-    for root, _, files in os.walk(LEAN):
-        if ".lake" in root or root.endswith("/Audit"):
+def lean_closure(module):
+    """source files of `module` and everything of this project it imports, transitively"""
+    seen, todo = {}, [module]
+    while todo:
+        m = todo.pop()
+        if m in seen:
             continue
-        for f in files:
-            if f.endswith(".lean"):
-                p = os.path.join(root, f)
-                body = strip_lean_comments(open(p).read())
-                for m in FORBIDDEN.finditer(body):
-                    hits.append(f"{os.path.relpath(p, LEAN)}: {m.group(0).strip()}")
+        path = os.path.join(LEAN, *m.split(".")) + ".lean"
+        if not os.path.exists(path):
+            continue
+        seen[m] = path
+        for imp in re.findall(r"^\s*import\s+((?:GmqttVerif|Driver)[\w.]*)", open(path).read(), re.M):
+            todo.append(imp)
+    return list(seen.values())
+
+def grep_forbidden(modules=None):
+    """forbidden constructs in the Lean sources a property depends on (all sources when modules is None)"""
+    if modules is None:
+        paths = [os.path.join(r, f) for r, _, fs in os.walk(LEAN) if ".lake" not in r and not r.endswith("/Audit") for f in fs if f.endswith(".lean")]
+    else:
+        paths = sorted({p for m in modules for p in lean_closure(m)})
+    hits = []
+    for p in paths:
+        body = strip_lean_comments(open(p).read())
+        for m in FORBIDDEN.finditer(body):
+            hits.append(f"{os.path.relpath(p, LEAN)}: {m.group(0).strip()}")
     return hits
 
 # ---------------------------------------------------------------- correspondence
@@ -224,8 +240,9 @@ def ddmin(ops, keep, fails):
     """delta-debug the op list (first `keep` lines fixed) while `fails(ops)` stays true."""
     head, body = ops[:keep], ops[keep:]
     n = 2
-    budget = 400
-    while len(body) >= 1 and budget > 0:
+    budget = 300
+    deadline = time.time() + float(os.environ.get("VERIF_SHRINK_S", "12"))
+    while len(body) >= 1 and budget > 0 and time.time() < deadline:
         size = max(1, len(body) // n)
         reduced = False
         for i in range(0, len(body), size):
@@ -282,14 +299,18 @@ class Run:
         self.known = [k for k in load_known() if k["prop"] == prop]
         self.recognisers = {}
         self._nontriv = set()
-        os.makedirs(os.path.join(VERIF, "replay"), exist_ok=True)
-        os.makedirs(os.path.join(VERIF, "evidence"), exist_ok=True)
+        os.makedirs(os.path.join(OUT, "replay"), exist_ok=True)
+        for f in os.listdir(os.path.join(OUT, "replay")):       # replay files of earlier runs of this property are stale
+            if f.startswith(prop + "-") and f.endswith(f"-{seed}.txt"):
+                try: os.remove(os.path.join(OUT, "replay", f))
+                except OSError: pass
+        os.makedirs(os.path.join(OUT, "evidence"), exist_ok=True)
 
     def log(self, msg):
         print(f"[{self.prop} {time.time()-self.t0:6.1f}s] {msg}", flush=True)
 
     def replay_path(self, tag):
-        return os.path.join(VERIF, "replay", f"{self.prop}-{tag}-{self.seed}.txt")
+        return os.path.join(OUT, "replay", f"{self.prop}-{tag}-{self.seed}.txt")
 
     def violation(self, tag, body, found_input, detail=""):
         """record a violation unless a known-finding recogniser accepts it. body: replay file text."""
@@ -309,10 +330,23 @@ class Run:
                 return k
         return None
 
+    def _driver_roots(self, comps):
+        """root modules of the oracle executables, read from lakefile.toml"""
+        roots = []
+        try:
+            text = open(os.path.join(LEAN, "lakefile.toml")).read()
+            for c in comps:
+                m = re.search(r'name = "oracle_%s"\s*\nroot = "Driver\.([\w.]+)"' % re.escape(c), text)
+                if m:
+                    roots.append(m.group(1))
+        except OSError:
+            pass
+        return roots
+
     # ---- proof side
     def prove(self, module, theorems, comps=(), thorough_leanchecker=True):
         """build the property module (+ the oracle executables of `comps`), audit axioms of every theorem."""
-        hits = grep_forbidden()
+        hits = grep_forbidden([module] + ["Driver." + drv for drv in self._driver_roots(comps)])
         if hits:
             self.violation("proof-grep", "# forbidden constructs in lean/ sources\n" + "\n".join(hits) + "\n", False,
                            "forbidden constructs")
@@ -350,7 +384,7 @@ class Run:
         # alone before they are believed
         for i, o in enumerate(impl):
             for _ in range(2):
-                if any(l.startswith(("err-", "CRASH", "dial-failed", "send-failed")) for l in o):
+                if any(l.startswith(("err-", "CRASH", "dial-failed", "send-failed", "hung")) for l in o):
                     o = stream.impl([cases[i]])[0]
                     impl[i] = o
         model = stream.model(cases, impl)
@@ -469,7 +503,7 @@ class Run:
         ev = dict(property_id=self.prop, tier=self.tier, seed=self.seed, level=level, coverage=cov,
                   assumptions=(assumptions or []) + self.notes, wall_s=round(time.time() - self.t0, 2),
                   violations=len(self.violations))
-        with open(os.path.join(VERIF, "evidence", f"{self.prop}.json"), "w") as f:
+        with open(os.path.join(OUT, "evidence", f"{self.prop}.json"), "w") as f:
             json.dump(ev, f, indent=1, default=str)
         for fid, text in sorted(self.known_hits.items()):
             print(f"KNOWN-FINDING: property={self.prop} {fid} {text}")
@@ -513,7 +547,7 @@ def replay(r, mod, path):
         print(f"replay file is not an op-stream case (stream={name}); it documents a broken proof obligation / build")
         return 1
     s = streams[name]
-    rc, out = build_go(r.log, list(mod.COMPS))
+    rc, out = build_go(r.log, list(mod.COMPS) + list(getattr(mod, "GO_EXTRA", [])))
     rc2, out2 = build_lean(["oracle_" + c for c in mod.COMPS], r.log)
     io, mo = s.both(ops)
     why = safe_pred(s, ops, io)
